@@ -51,14 +51,14 @@ func stallPoints(endpoint string) []string {
 // garbage: malformed requests a misbehaving peer may send in place of either handshake request
 // (it then stays connected and silent)
 var garbage = []string{
-	"X-SOCKETACE /\r\n\r\n",            // request line with one blank
-	"\r\n\r\n",                         // empty request line
-	"GET\r\n\r\n",                      // no blank at all
-	" \r\n\r\n",                        // only a blank
-	"X-SOCKETACE  HTTP/1.1\r\n\r\n",    // two adjacent blanks
+	"X-SOCKETACE /\r\n\r\n",         // request line with one blank
+	"\r\n\r\n",                      // empty request line
+	"GET\r\n\r\n",                   // no blank at all
+	" \r\n\r\n",                     // only a blank
+	"X-SOCKETACE  HTTP/1.1\r\n\r\n", // two adjacent blanks
 	"X-SOCKETACE / HTTP/1.1\r\nNoColon\r\n\r\n",
 	"\x00\x01\x02\xff\r\n\r\n",
-	announce + "GET /\r\n\r\n",         // malformed second request
+	announce + "GET /\r\n\r\n", // malformed second request
 	announce + "\r\n\r\n",
 }
 
@@ -80,7 +80,9 @@ func handshakeStallPoints(endpoint string) []string {
 	case "socket+tls":
 		return []string{"after-connect", "partial-tls-hello", "tls-then-silence", "tls-partial-request-line", "tls-garbage:0", "tls-garbage:7"}
 	case "dns":
-		return []string{"version-only", "hello-only", "hello-then-partial-announce"}
+		// announce-then-silence: the peer sends its complete first request and never sends another query, so
+		// the server's answer to it stays unacknowledged for good
+		return []string{"version-only", "hello-only", "hello-then-partial-announce", "announce-then-silence"}
 	case "http":
 		return []string{"after-connect", "partial-http-request", "ws-then-silence", "ws-then-partial-announce", "ws-then-unsupported-version"}
 	}
@@ -130,7 +132,7 @@ func stall(w *world.World, c Case) (alive func() bool, err error) {
 		return alive, nil
 	}
 	if c.Endpoint == "dns" {
-		conn, _, err := w.Dns.NewClientConn()
+		conn, dg, err := w.Dns.NewClientConn()
 		if err != nil {
 			return nil, err
 		}
@@ -154,6 +156,10 @@ func stall(w *world.World, c Case) (alive func() bool, err error) {
 			}
 			if c.Stall == "hello-then-partial-announce" {
 				conn.Write([]byte("X-SOCKETAC"))
+			}
+			if c.Stall == "announce-then-silence" {
+				conn.Write([]byte(announce))
+				dg.Muted.Store(true)
 			}
 		}()
 		bubble.Wait()
